@@ -601,20 +601,37 @@ fn props_connect(rng: &mut Rng) -> Vec<Property> {
 }
 
 pub fn mk_connect(rng: &mut Rng, ver: u64) -> Packet {
-    let clean = rng.chance(1, 2);
+    mk_connect_opts(rng, ver, None, None)
+}
+
+/// CONNECT with a forced clean flag and (v5.0) a forced Session Expiry Interval
+pub fn mk_connect_opts(rng: &mut Rng, ver: u64, clean: Option<bool>, sei: Option<u32>) -> Packet {
+    let c0 = rng.chance(1, 2);
+    let clean = clean.unwrap_or(c0);
     let ka: u16 = *rng.pick(&[0u16, 0, 10, 60]);
     if ver == 4 {
         v3_1_1::Connect::builder().client_id("cid").unwrap().clean_session(clean).keep_alive(ka).build().unwrap().into()
     } else {
-        v5_0::Connect::builder()
-            .client_id("cid")
-            .unwrap()
-            .clean_start(clean)
-            .keep_alive(ka)
-            .props(props_connect(rng))
-            .build()
-            .unwrap()
-            .into()
+        let mut props = props_connect(rng);
+        if let Some(x) = sei {
+            props.retain(|p| !matches!(p, Property::SessionExpiryInterval(_)));
+            props.push(mqtt::packet::SessionExpiryInterval::new(x).unwrap().into());
+        }
+        v5_0::Connect::builder().client_id("cid").unwrap().clean_start(clean).keep_alive(ka).props(props).build().unwrap().into()
+    }
+}
+
+/// successful CONNACK with a forced session-present flag
+pub fn mk_connack_sp(rng: &mut Rng, ver: u64, sp: bool) -> Packet {
+    if ver == 4 {
+        v3_1_1::Connack::builder().session_present(sp).return_code(ConnectReturnCode::Accepted).build().unwrap().into()
+    } else {
+        let mut props = props_connect(rng);
+        props.retain(|p| !matches!(p, Property::SessionExpiryInterval(_)));
+        if rng.chance(1, 3) {
+            props.push(mqtt::packet::ServerKeepAlive::new(*rng.pick(&[0u16, 5, 30])).unwrap().into());
+        }
+        v5_0::Connack::builder().session_present(sp).reason_code(ConnectReasonCode::Success).props(props).build().unwrap().into()
     }
 }
 
@@ -872,6 +889,7 @@ pub struct Runner<R: mqtt::connection::role::RoleType> {
     pub dead: bool,
     pub last_events: Vec<GenericEvent<Pid>>,
     pub last_acquired: Option<u64>,
+    pub log: Vec<Op>,
 }
 
 impl<R: mqtt::connection::role::RoleType> Runner<R> {
@@ -886,6 +904,7 @@ impl<R: mqtt::connection::role::RoleType> Runner<R> {
             dead: false,
             last_events: Vec::new(),
             last_acquired: None,
+            log: Vec::new(),
         }
     }
 
@@ -895,6 +914,7 @@ impl<R: mqtt::connection::role::RoleType> Runner<R> {
             return 0;
         }
         self.nops += 1;
+        self.log.push(op.clone());
         let mut rec: Vec<u64> = Vec::new();
         let mut unread = 0usize;
         let c = self.conn.as_mut().unwrap();
